@@ -110,6 +110,23 @@ EXTRA = {
 (assert (fst (> (mk q) red)))
 (assert (= b (fst b)))
 ''',
+    'datatypes_block': '''
+(declare-datatypes ((Expr 0) (Args 0))
+  (((lit (val Int)) (app (fn Int) (args Args)) (neg (sub Expr)))
+   ((none) (more (hd Expr) (tl Args)) (one (only Expr)))))
+(declare-const e Expr)
+(declare-const l Args)
+(assert (= l (more e none)))
+(assert (= e (app 1 (more (lit 2) (one (neg e))))))
+(assert (distinct (tl l) (one e)))
+''',
+    'selector_on_other_constructor': '''
+(declare-datatype Shape ((circle (radius Real)) (rect (w Int) (h Int)) (pt (tag Bool))))
+(declare-const s Shape)
+(assert (> (radius (rect 2 3)) 0.5))
+(assert (tag (rect 4 5)))
+(assert (= (w (circle 1.5)) (h s)))
+''',
     'ite_unknown_branch': '''
 (declare-fun u (Int) (_ BitVec 3))
 (declare-const c Bool)
